@@ -300,6 +300,10 @@ func Run(c Case) core.Result {
 		r = runTLS(c, nil, stuffed, nil, inTLS)
 	case "ssl-twice":
 		r = runTLS(c, pgwire.SSLRequest(), nil, nil, inTLS)
+	case "ssl-inside-tls":
+		r = runTLS(c, nil, nil, nil, append(pgwire.SSLRequest(), inTLS...))
+	case "gss-inside-tls":
+		r = runTLS(c, nil, nil, nil, append(pgwire.Untyped(pgwire.CodeGSS, nil), inTLS...))
 	case "cancel-in-tls":
 		r = runTLS(c, nil, nil, nil, pgwire.CancelRequest(7, 7))
 	case "garbage-hello":
@@ -370,6 +374,10 @@ func Run(c Case) core.Result {
 			return core.Fail("C11/failed-handshake/callback", "%s", d)
 		}
 		res.Labels = append(res.Labels, "handshake-failed(allowed)")
+		res.NonTrivial = true
+		return res
+	}
+	if c.Client == "ssl-inside-tls" || c.Client == "gss-inside-tls" {
 		res.NonTrivial = true
 		return res
 	}
